@@ -1,4 +1,4 @@
-HOOK_COMMITS = ["75c4ba1", "a6cb873", "8a35c75", "5482b4f", "5942103", "1f599f2", "ed945f7"]
+HOOK_COMMITS = ["75c4ba1", "a6cb873", "8a35c75", "5482b4f", "5942103", "1f599f2", "ed945f7", "1a1d180", "687c425"]
 
 NOT_APPLICABLE_REASONS = {}
 
@@ -37,13 +37,13 @@ META = {
         "level_note": "Ties on the newest timestamp in latest-per-key queries are accepted on any maximal entry; windowed latest-per-key queries are compared with the window of the unwindowed result of the same store.",
     },
     "C06": {
-        "technique": "runtime monitoring with fault injection: crash images (file copied without commit, and real SIGKILLs) reopened and compared with the states a shadow instance passed through; age-based commit forced at every internal store access (hook H6); child processes opening old-format store files killed by strace on entry to each file-system call",
+        "technique": "runtime monitoring with fault injection: crash images (file copied without commit, and real SIGKILLs) reopened and compared with the states a shadow instance passed through; age-based commit forced at every internal store access (hook H6); child processes opening old-format store files, and child processes starting a persistent node and changing its default author, killed by strace on entry to each file-system call; the same histories through the store actor with images inside the access callback, after acknowledged flushes and after shutdown",
         "design_ref": "DESIGN.md §5 C06, Appendix C",
         "level_text": "For every operation of every history: an image after the call, an image at every internal store access with the auto-commit forced there (all accesses, and single placements), plus killed child processes. The reopened image must open, equal a shadow state between the last acknowledged flush and the operation in progress, and be internally coherent (lookups, both scans, heads). Enumerates crash points and commit placements of the generated histories; not a proof over all histories.",
         "level_note": "Covers process death (what the kernel keeps of the file), not power loss; redb's fsync discipline is trusted. Operations are single store calls; multi-entry reconciliation messages are not treated as one atomic operation.",
     },
     "C07": {
-        "technique": "runtime monitoring: capability lattice model (none<read<write, never decreasing) compared with the real store and store actor over random import/open/close/reopen/write histories",
+        "technique": "runtime monitoring: capability lattice model (none<read<write, never decreasing) compared with the real store and store actor over random import/open/close/reopen/write histories; a complete node driven through its client layer (DocsApi / Doc) with every reply compared with a sequential specification",
         "design_ref": "DESIGN.md §5 C07",
         "level_text": "Random sequences over three documents of capability imports, opens, closes, store reopen, local write attempts, valid remote inserts, exports and foreign merges, through the store and through the actor; every result and the listed capability kinds must match the model. " + _EXPL,
         "level_note": "Trusts the three-valued capability model; <=30 steps per history.",
@@ -67,7 +67,7 @@ META = {
         "level_note": "The mirror equation is not judged when the harness cut the stream cleanly at a frame boundary: end-of-stream is the protocol's end marker and only an in-memory pipe can produce it on both sides mid-session.",
     },
     "C11": {
-        "technique": "runtime monitoring: seeded scheduler over the real coordination state and completion handlers of two/three real live actors (hook H5), with a network model that owns only in-flight objects; invariants S1-S5 checked after every event, incl. histories in which a node leaves and rejoins with a session in flight; plus a complete docs node on loopback QUIC driven by a hand-written hostile peer and judged at the wire and event boundary",
+        "technique": "runtime monitoring: seeded scheduler over the real coordination state and completion handlers of two/three real live actors (hook H5), with a network model that owns only in-flight objects; invariants S1-S5 checked after every event, incl. histories in which a node leaves and rejoins with a session in flight; plus a complete docs node on loopback QUIC driven by a hand-written hostile peer and judged at the wire and event boundary; plus invariants on the coordination state of running live actors read through a snapshot query (hook H8): a busy slot always has a dial / accept task in flight",
         "design_ref": "DESIGN.md §5 C11, Appendix A",
         "level_text": "Random schedules of dial decisions, request delivery/loss, decline replies delivered/lost, and independent successful or failed completion of both session ends (including the acceptor's bookkeeping being overtaken by a re-dial), in both id orders. After every event: at most one session in progress per pair, crossing dials resolve to exactly one, refused reports lead to exactly one resync, nothing in flight implies both slots idle and a probe dial is accepted, unsynced documents are declined as not found. Net mode runs the real accepting stack (net::handle_connection inside the running engine) against a peer that holds sessions open, dials again, and ends declined connections orderly, abruptly, by reset or by stop: no request may be accepted while an earlier accepted session still answers, no end of session may be reported for a session never allowed, and once every accepted session was reported finished the next request must be accepted. " + _EXPL,
         "level_note": "Progress ('never permanently busy') is decided at quiescent points of bounded histories (<=6 dials, <=14/24 events). The network model imposes only causality; handlers are invoked directly, not through the actor's select loop.",
@@ -85,7 +85,7 @@ META = {
         "level_note": "On equal timestamps any head key is accepted; limit 0 is excluded (the empty list needs one byte).",
     },
     "C14": {
-        "technique": "runtime monitoring: sequential specification of the actor compared step by step; concurrent client histories recorded at the client boundary and checked for linearizability (per-document DFS) against the same specification; author deletion / import between requests; (thorough) ThreadSanitizer sub-run",
+        "technique": "runtime monitoring: sequential specification of the actor compared step by step; concurrent client histories recorded at the client boundary and checked for linearizability (per-document DFS) against the same specification; author deletion / import between requests; (thorough) ThreadSanitizer sub-run; a complete node driven through its client layer (DocsApi / Doc): every reply and status() after every step compared with a sequential specification",
         "design_ref": "DESIGN.md §5 C14, Appendix B",
         "level_text": "Random request sequences over two documents (open/close counting, sync switch, gated operations, removal, shutdown) are compared reply by reply and by get_state with an executable specification; histories of 2-4 concurrent clients on a multi-thread runtime must be linearizable; the store handed back by shutdown must hold every acknowledged write. " + _EXPL,
         "level_note": "Histories are short (<=20 operations, <=4 clients) so the linearizability search is tiny; a checker time-out is reported as inconclusive. The handle count after a refused removal is adopted from the actor (not part of the statement).",
@@ -97,13 +97,13 @@ META = {
         "level_note": "Trusts the matcher specification in the harness (four lines).",
     },
     "C16": {
-        "technique": "runtime monitoring: snapshot-diff of every observable of every other document around each removal / re-creation / write; exact comparison of the protected hash set with the dumps; complete engine driven through client handles (protect callback, open guard)",
+        "technique": "runtime monitoring: snapshot-diff of every observable of every other document around each removal / re-creation / write; exact comparison of the protected hash set with the dumps; complete engine driven through client handles (protect callback, open guard); drop_doc through the client layer of a complete node (refused while another handle holds the document, complete otherwise)",
         "design_ref": "DESIGN.md §5 C16",
         "level_text": "Stores with 3-5 documents whose ids are byte neighbours (searched ids ending in FF / 00, read-only ids 00..00, FF..FF, ..FFFF) go through writes, removals (also attempted while open) and re-creations; after each step the removed document must show nothing, all others must be byte-identical to their snapshot, and content_hashes() must equal the hashes held. " + _EXPL,
         "level_note": "Entries of documents whose id is not a public key are placed below the validation layer (hook H3), because they cannot be signed.",
     },
     "C17": {
-        "technique": "runtime monitoring: MRU list model compared with get_sync_peers after every registration; reopen through files of the redb-2.x on-disk format; crash images inside registrations (hook H6)",
+        "technique": "runtime monitoring: MRU list model compared with get_sync_peers after every registration; reopen through files of the redb-2.x on-disk format; crash images inside registrations (hook H6); the same list through the store actor, registrations for documents that are not open included",
         "design_ref": "DESIGN.md §5 C17",
         "level_text": "Random registration sequences over 1-8 peers and two documents with reopen and unknown documents; the list must equal the five most recently registered distinct peers, most recent first, after every step. " + _EXPL,
         "level_note": "Registration order is by wall-clock nanoseconds in the store; two registrations are assumed to get distinct clock readings.",
